@@ -483,6 +483,13 @@ def evaluate(ctx, binpath, cases, tag="rpc"):
             w_idx.append(i)
             w_terms.append(wcase_term(c, o))
         elif c["k"] == "read":
+            # a decoder cannot deliver more payload bytes than the stream carried: decided here so that a
+            # decoder gone astray (garbage length fields) does not produce terms of hundreds of megabytes
+            got = sum(len(m.get("data") or "") // 2 for m in (o.get("msgs") or []))
+            if got > len(c["stream"]) // 2:
+                findings.append(dict(case=i, kind="concrete", what="Wire.Read delivered %d payload bytes from a stream of %d bytes (frames do not survive decoding)" % (got, len(c["stream"]) // 2),
+                                     detail=dict(messages=len(o.get("msgs") or []), end=o.get("end"))))
+                continue
             r_idx.append(i)
             r_terms.append(rcase_term(c, o))
         elif c["k"] == "race":
